@@ -47,6 +47,11 @@ THEOREMS = [
      "w_status full = 200%N /\\ w_status part = 206%N /\\ w_content_encoding part = w_content_encoding full /\\ "
      "w_body part = firstn (N.to_nat (N.min c (w_content_length full - 1) - a + 1)) (skipn (N.to_nat a) (w_body full)) /\\ "
      "w_content_length part = N.of_nat (length (w_body part))"),
+    ("range_conn_tiling",
+     "forall (checked caching : bool) (pg : page) (cache : option page) (ae : N) (ws : list N), page_fits pg -> cache_ok pg cache -> "
+     "Forall (fun w => (0 < w)%N) ws -> sumN ws = N.of_nat (length (rp_body (choose pg ae))) -> exists replies, "
+     "serve_history checked caching 200%N pg cache (map (get_range ae) (tile_ranges 0%N ws)) = Ok replies /\\ "
+     "concat (map wbody replies) = rp_body (choose pg ae)"),
     ("range_of_unranged",
      "forall (checked caching : bool) (status : N) (pg : page) (cache : option page) (q : rreq), page_fits pg -> cache_ok pg cache -> "
      "status <> 304%N -> rq_method q <> HEAD -> fst (rstep checked caching status pg cache q) = "
@@ -429,6 +434,16 @@ def conn_cases(rng, tier):
 
 
 def generate(rng, tier):
+    # the extracted model is not tail-recursive on byte lists: a 1 MiB body needs more than the default 8 MiB stack
+    # (child processes — the model driver — inherit the limit)
+    try:
+        import resource
+        soft, hard = resource.getrlimit(resource.RLIMIT_STACK)
+        want = 1 << 30
+        if soft != resource.RLIM_INFINITY and soft < want:
+            resource.setrlimit(resource.RLIMIT_STACK, (want if hard == resource.RLIM_INFINITY or hard >= want else hard, hard))
+    except (ImportError, ValueError, OSError):
+        pass
     cases = conn_cases(rng, tier)
     # corpus of past failures first
     for h, n in [(b"bytes=5-5", 10), (b"bytes=0-18446744073709551615", 10), (b"bytes=3-9", 10), (b"bytes=0-0", 1),
@@ -660,7 +675,8 @@ LEVEL_TEXT = ("Machine-checked Coq theorems over a byte-level model of the Range
               "(range_of_unranged); a request that is not conditional is answered independently of the history prefix and of the cache "
               "(range_history_independent, range_after_history); HEAD = GET's status and headers without body (range_head_as_get); the "
               "206 body is the slice of the un-ranged 200 body with the same content-encoding (range_slice_of_unranged); of several "
-              "Range lines the last counts (range_last_line); a conditional ranged request on a stored page is answered 304 "
+              "Range lines the last counts (range_last_line); consecutive ranged GETs that tile the encoded representation "
+              "reconstruct it, in every cache state (range_conn_tiling); a conditional ranged request on a stored page is answered 304 "
               "(range_conditional — kvarn 0.6.3 answered 416: range_conditional_063_refuted, repaired in SendKind::send). Files "
               "streamed by extensions::stream_body: every reply is range_spec of the file (range_stream_correct — kvarn 0.6.3 answered "
               "200 without content-range, announced more bytes than the file has and never 416: range_stream_063_refuted, repaired). "
